@@ -950,6 +950,7 @@ func runSearcher(seed uint64, perEntry int, only string) {
 		}
 		e.checkWrongTypes(r)
 		e.checkWrongCounts(r)
+		e.checkCoercions(r) // round 8 (coerce.go); last, so that the streams above see the same random draws as before
 	}
 	if res.Extra == nil {
 		res.Extra = map[string]interface{}{}
